@@ -375,10 +375,14 @@ func (p *ShadowPacketClientUnpacker) UnpackInPlace(b []byte, packetSourceAddrPor
 	case oldServerSession:
 		p.oldServerSessionLastSeenTime = now
 	case newServerSession:
+		// The very first server session replaces nothing: it must not start the period
+		// during which further session changes are dropped.
+		if p.currentServerSessionAEAD != nil {
+			p.oldServerSessionLastSeenTime = now
+		}
 		p.oldServerSessionID = p.currentServerSessionID
 		p.oldServerSessionAEAD = p.currentServerSessionAEAD
 		p.oldServerSessionFilter = p.currentServerSessionFilter
-		p.oldServerSessionLastSeenTime = now
 		p.currentServerSessionID = ssid
 		p.currentServerSessionAEAD = saead
 		p.currentServerSessionFilter = sfilter
